@@ -29,12 +29,17 @@ use zipora::hash_map::{
 use zipora::memory::{SecureMemoryPool, SecurePoolConfig};
 
 const HEADER: &str = r#"From ZV.Common Require Import Base Run.
-From ZV.C06 Require Import Model ModelGold ModelEasy ModelIdx.
+From ZV.C06 Require Import Model ModelGold ModelEasy ModelIdx ModelFast ModelStr ModelEasyX ModelIdxX.
 Open Scope N_scope.
 (* kind 0: standard storage [hasher mode; initial capacity; has_final; final capacity] [final slot-order iteration]
    kind 1: stub storage; kind 2: SmallMap;
    kind 4: EasyHashMap [initial capacity; auto_grow; max_load_factor numerator; denominator]
-   kind 5: GoldHashIdx [requested capacity]
+           (ModelEasyX: op 12 = get_or_insert(_with), op 15 = one put of an extend / Extend / FromIterator loop)
+   kind 5: GoldHashIdx [requested capacity] (ModelIdxX: op 16 = the pre-sizing of insert_batch for k items, op 17 = one insert of its loop)
+   kind 6: standard storage under a hash function given as a table (String / typed keys: key numbers are the harness's
+           canonical numbering of the keys, the table holds what the cell's BuildHasher returns for each) [initial capacity] [hash table]
+   kind 7: SmallMap<u8> with get answered by get_fast (ModelFast.v)
+   kind 8: HashStrMap (ModelStr.v; op 8 = one field of statistics(): v mod 3 = entries / total_strings / unique_strings)
    kind 3: GoldHashMap [initial capacity; cache; gc; reuse; has_final; final bucket count; final deleted count]
                        [final entry-order iteration; hash table; max_load table] *)
 Definition case_t : Type := N * list N * list (list (N * N)) * list op * list obs.
@@ -50,9 +55,12 @@ Definition ok (c : case_t) : bool :=
           else let st := exec h st0 ops in eqb_kvs (iter st) (tb ts 0) && (alloc st =? pn ps 3))
   | 1 => eqb_obss (stub_run ops) expect
   | 2 => eqb_obss (sm_run (hasher 0) (Small []) ops) expect
-  | 5 => eqb_obss (irun (hasher 0) (iinit (pn ps 0)) ops) expect
+  | 5 => eqb_obss (irunx (hasher 0) (iinit (pn ps 0)) ops) expect
+  | 6 => eqb_obss (run (assoc (tb ts 0) 0) (init (pn ps 0)) ops) expect
+  | 7 => eqb_obss (smf_run true (hasher 0) (Small []) ops) expect
+  | 8 => eqb_obss (hs_run hs_new ops) expect
   | 4 => let grow := fun l c => pn ps 2 * c <=? pn ps 3 * l in
-         eqb_obss (easy_run (hasher 0) grow (negb (pn ps 1 =? 0)) (init (pn ps 0)) ops) expect
+         eqb_obss (easy_runx (hasher 0) grow (negb (pn ps 1 =? 0)) (init (pn ps 0)) ops) expect
   | _ => let h := assoc (tb ts 1) 0 in
          let ml := assoc (tb ts 2) 0 in
          let cfg := mkcfg (negb (pn ps 1 =? 0)) (negb (pn ps 2 =? 0)) (negb (pn ps 3 =? 0)) in
@@ -200,6 +208,12 @@ enum ModelDesc {
     Gold { cap0: u64, cache: bool, gc: bool, reuse: bool, lf: f32, collide: u64 },
     Easy { cap: u64, auto: bool, num: u64, den: u64 },
     Idx { cap: u64 },
+    /// standard storage, hash function as a table of what the cell's BuildHasher yields (String / typed keys)
+    StdTab { cap: u64 },
+    /// SmallMap<u8>: get goes through get_fast
+    SmallU8,
+    /// HashStrMap: std HashMap + counters
+    Str,
 }
 struct Cell { name: String, status: &'static str, model: Option<ModelDesc>, stub: bool, map: Box<dyn Mut> }
 
@@ -215,14 +229,18 @@ fn make_cell(family: &str, variant: u64, aux: u64) -> Cell {
         "zip" => {
             let (name, cfg, cap, stub) = zip_config(variant);
             let m = zipora::hash_map::ZiporaHashMap::<u64, u64, ModeBuild>::with_config_and_hasher(cfg, ModeBuild(aux)).expect("with_config_and_hasher");
-            // the library's own hash functions (modes >= N_HASHERS) have no mirror in Model.v
-            let model = if stub { Some(ModelDesc::Stub) } else if aux < N_HASHERS { cap.map(|c| ModelDesc::Std { mode: aux, cap: c }) } else { None };
+            // hashers 0..N_HASHERS are mirrored by `hasher` in Model.v; the library's own hash functions (modes >= N_HASHERS) are
+            // tabulated per case from the real function (kind 6)
+            let model = if stub { Some(ModelDesc::Stub) } else if aux < N_HASHERS { cap.map(|c| ModelDesc::Std { mode: aux, cap: c }) } else { cap.map(|c| ModelDesc::StdTab { cap: c }) };
             Cell { name: format!("ZiporaHashMap/{}", name), status: if stub { "finding" } else { "M+S" }, model, stub, map: Box::new(Zip::<U64, ModeBuild>(m, aux)) }
         }
         "zipstr" => {
-            let (name, cfg, _, stub) = zip_config(variant);
+            let (name, cfg, cap, stub) = zip_config(variant);
             let m = zipora::hash_map::ZiporaHashMap::<String, u64, ModeBuild>::with_config_and_hasher(cfg, ModeBuild(aux)).expect("with_config_and_hasher");
-            Cell { name: format!("ZiporaHashMap<String>/{}", name), status: if stub { "finding" } else { "S-only" }, model: None, stub, map: Box::new(ZipStr(m)) }
+            // the same generic code as the u64 cells, entered through the Borrow<str> lookups: the model runs on the key numbers
+            // with the hash function tabulated from the real BuildHasher on the real String keys
+            let model = if stub { Some(ModelDesc::Stub) } else { cap.map(|c| ModelDesc::StdTab { cap: c }) };
+            Cell { name: format!("ZiporaHashMap<String>/{}", name), status: if stub { "finding" } else { "M+S" }, model, stub, map: Box::new(ZipStr(m, aux)) }
         }
         "zipcap" => {
             // ZiporaHashMap::with_capacity(n) needs S: Default, i.e. hasher mode 0
@@ -292,7 +310,7 @@ fn make_cell(family: &str, variant: u64, aux: u64) -> Cell {
             let (_, twin, _) = mk(true);
             Cell { name: format!("GoldHashIdx/{}", name), status: "M+S", model: Some(ModelDesc::Idx { cap }), stub: false, map: Box::new(Idx::<CK>(m, aux, Some(twin))) }
         }
-        "small_u8" => Cell { name: "SmallMap<u8>/get_fast".into(), status: "S-only", model: None, stub: false, map: Box::new(SmU8(zipora::containers::specialized::SmallMap::new())) },
+        "small_u8" => Cell { name: "SmallMap<u8>/get_fast".into(), status: "M+S", model: Some(ModelDesc::SmallU8), stub: false, map: Box::new(SmU8(zipora::containers::specialized::SmallMap::new())) },
         "small" => {
             use zipora::containers::specialized::SmallMap as S;
             let m = if variant == 0 { S::new() } else { S::default() };
@@ -318,12 +336,26 @@ fn make_cell(family: &str, variant: u64, aux: u64) -> Cell {
         }
         "zip_t" | "gold_t" | "idx_t" | "small_t" | "easy_t" => {
             let (name, map) = typed_cell(family, variant, aux);
-            Cell { name, status: "S-only", model: None, stub: false, map }
+            // ZiporaHashMap over the rarely used key/value types: standard storage, default configuration (16 slots), the
+            // hash function tabulated per case; the other families stay oracle-only
+            // the same generic code over rarely used key / value types, tied to the family's model on the canonical key / value numbers:
+            // ZiporaHashMap (default configuration, 16 slots) and GoldHashMap (high_churn, 5 buckets, cache on even aux) with the
+            // hash function tabulated per case from the real hasher on the real keys; GoldHashIdx::new(), SmallMap::new(),
+            // EasyHashMap::with_default(7) by their answers (fixed internal hashers; the theorems say the answers do not depend on them)
+            let model = match family {
+                "zip_t" => ModelDesc::StdTab { cap: 16 },
+                "gold_t" => { let c = GoldHashMapConfig::high_churn();
+                              ModelDesc::Gold { cap0: 5, cache: aux % 2 == 0, gc: c.enable_auto_gc, reuse: c.enable_freelist_reuse, lf: c.load_factor, collide: aux } }
+                "idx_t" => ModelDesc::Idx { cap: 16 },
+                "small_t" => ModelDesc::Small,
+                _ => ModelDesc::Easy { cap: 16, auto: true, num: 3, den: 4 },
+            };
+            Cell { name, status: "M+S", model: Some(model), stub: false, map }
         }
         _ => {
             use zipora::containers::specialized::HashStrMap as H;
             let m = match variant { 0 => H::new(), 1 => H::with_capacity(3), _ => H::default() };
-            Cell { name: "HashStrMap".into(), status: "S-only", model: None, stub: false, map: Box::new(StrM(m)) }
+            Cell { name: "HashStrMap".into(), status: "M+S", model: Some(ModelDesc::Str), stub: false, map: Box::new(StrM(m)) }
         }
     }
 }
@@ -372,9 +404,17 @@ fn history(cx: &mut Ctx, family: &str, variant: u64, aux: u64, ops: &[(u64, u64,
     cx.sum.dist_max("max_history_len", ops.len() as u64);
     if has_rm_reinsert { cx.sum.dist("histories_with_remove_then_reinsert"); }
 
+    // EasyHashMap's model also knows get_or_insert(_with) (op 12) and the put loop of extend / Extend / FromIterator (op 10)
+    // GoldHashIdx's model knows insert_batch (op 10) as its pre-sizing step followed by the insert loop
+    let idx_ext = matches!(cell.model, Some(ModelDesc::Idx { .. }));
+    let ext = idx_ext || matches!(cell.model, Some(ModelDesc::Easy { .. }));
+    let mut expanded: std::collections::HashMap<usize, Vec<(u64, u64)>> = std::collections::HashMap::new();
     let mut shadow: BTreeMap<u64, u64> = BTreeMap::new();
     let mut obs: Vec<String> = vec![];      // observations as Coq terms (model comparison)
     let mut offered: Vec<bool> = vec![];    // operations the type does not offer are left out of the model comparison
+    let (mut ctr_total, mut ctr_unique) = (0u64, 0u64); // insert calls / inserts of an absent key since the last clear (HashStrMap::statistics)
+    let mut cops: Vec<(u64, u64, u64)> = vec![]; // the operations on the canonical key / value numbers (typed cells)
+    let mut khash: Vec<(u64, u64)> = vec![];     // canonical key -> what the cell's BuildHasher yields for it (table-driven model)
     let mut failure: Option<String> = None;
     let mut stub_like = true;               // every answer so far is what an empty map would say
     let mut maintained = false;             // a housekeeping operation (shrink_to_fit / reserve / revoke_deleted / clone ...) was executed
@@ -383,6 +423,8 @@ fn history(cx: &mut Ctx, family: &str, variant: u64, aux: u64, ops: &[(u64, u64,
         let m = &mut cell.map;
         // key and value in the canonical form of the cell's element types (u8 keys wrap at 256, () is a single key ...)
         let (k, v) = if c <= 4 || c == 12 { (m.canon_k(k0), if c == 0 || c == 3 || c == 12 { m.canon_v(v0) } else { v0 }) } else { (k0, v0) };
+        cops.push((c, k, v));
+        if c <= 4 { if let Some(hv) = m.key_hash(k0) { khash.push((k, hv)); } }
         let items: Vec<(u64, u64)> = if c == 10 { bulk_items(k0, v0).into_iter().map(|(a, b)| (m.canon_k(a), m.canon_v(b))).collect() } else { vec![] };
         let (rm, rr, radd) = (2 + k0 % 3, (k0 / 3) % (2 + k0 % 3), v0 % 2 == 1); // retain: keep the keys with key % rm != rr
         let step: Result<Option<(String, Option<String>)>, String> = guarded(|| {
@@ -415,7 +457,11 @@ fn history(cx: &mut Ctx, family: &str, variant: u64, aux: u64, ops: &[(u64, u64,
                     let want: Vec<(u64, u64)> = shadow.iter().map(|(a, b)| (*a, *b)).collect();
                     let term = format!("OIter [{}]", got.iter().map(|(a, b)| format!("({}, {})", a, b)).collect::<Vec<_>>().join("; "));
                     (term, if got != want { Some(format!("iteration yields {:?}, the live entries are {:?}", &got[..got.len().min(12)], &want[..want.len().min(12)])) } else { None }) }),
-                8 => m.maintain(v).map(|_| ("OMaint".to_string(), None)),
+                8 => m.maintain(v).map(|_| match m.counter(v) {
+                    // a counter the cell's model knows about (HashStrMap::statistics): an observation of the model; `entries` is also the shadow's
+                    Some(x) => { let want = [shadow.len() as u64, ctr_total, ctr_unique][(v % 3) as usize];
+                                 (format!("OLen {}", x), if x != want { Some(format!("statistics().{} = {}, the history gives {}", ["entries", "total_strings", "unique_strings"][(v % 3) as usize], x, want)) } else { None }) }
+                    None => ("OMaint".to_string(), None) }),
                 // ---- breadth: secondary entry points, judged by the same shadow; none of them is known to the Coq models
                 9 => {
                     // Clone (and PartialEq where the type has it); probe = (a live key, its value, an absent key) for the inequality checks
@@ -423,7 +469,7 @@ fn history(cx: &mut Ctx, family: &str, variant: u64, aux: u64, ops: &[(u64, u64,
                     let absent = (0..300u64).map(|u| m.canon_k(u)).find(|u| !shadow.contains_key(u));
                     m.clone_swap(v, present, absent).map(|r| ("OMaint".to_string(), r.err().map(|e| format!("clone: {}", e))))
                 }
-                10 => m.bulk(&items, v).map(|r| ("OMut".to_string(), r.err().map(|e| format!("bulk insertion of {:?} returned Err({})", items, e)))),
+                10 => m.bulk(&items, v).map(|r| ((if ext { "OUnit" } else { "OMut" }).to_string(), r.err().map(|e| format!("bulk insertion of {:?} returned Err({})", items, e)))),
                 11 => m.alt_get(&[k0, k0.wrapping_add(1), k0.wrapping_add(16)], v).map(|got| {
                     let mut complaint = None;
                     for (key, ans, dflt) in got {
@@ -434,7 +480,7 @@ fn history(cx: &mut Ctx, family: &str, variant: u64, aux: u64, ops: &[(u64, u64,
                 12 => m.get_or_insert(k, v, v0 / 2).map(|r| {
                     let want = shadow.get(&k).copied().unwrap_or(v);
                     match r {
-                        Ok(got) => ("OMut".to_string(), if got != want { Some(format!("get_or_insert({},{}) = {}, a map yields {}", k, v, got, want)) } else { None }),
+                        Ok(got) => (if ext && !idx_ext { format!("ORes (Some {})", got) } else { "OMut".to_string() }, if got != want { Some(format!("get_or_insert({},{}) = {}, a map yields {}", k, v, got, want)) } else { None }),
                         Err(e) => ("OMut".to_string(), Some(format!("get_or_insert({},{}) returned Err({})", k, v, e))),
                     } }),
                 13 => m.retain(rm, rr, radd).map(|_| ("OMut".to_string(), None)),
@@ -465,12 +511,13 @@ fn history(cx: &mut Ctx, family: &str, variant: u64, aux: u64, ops: &[(u64, u64,
                 if let Some(msg) = complaint { failure = Some(format!("op {}: {}", i, msg)); break; }
             }
         }
+        if ext && c == 10 && offered.last() == Some(&true) { expanded.insert(i, items.clone()); }
         // the shadow map
         match c {
-            0 => { shadow.insert(k, v); }
+            0 => { ctr_total += 1; if !shadow.contains_key(&k) { ctr_unique += 1; } shadow.insert(k, v); }
             1 => { shadow.remove(&k); }
             3 => { if let Some(r) = shadow.get_mut(&k) { *r = v; } }
-            7 => { shadow.clear(); }
+            7 => { shadow.clear(); ctr_total = 0; ctr_unique = 0; }
             10 => { for (a, b) in &items { shadow.insert(*a, *b); } }
             12 => { shadow.entry(k).or_insert(v); }
             13 => {
@@ -503,17 +550,34 @@ fn history(cx: &mut Ctx, family: &str, variant: u64, aux: u64, ops: &[(u64, u64,
                 ModelDesc::Stub => (1, vec![], vec![]),
                 ModelDesc::Small => (2, vec![], vec![]),
                 ModelDesc::Idx { cap } => (5, vec![cap], vec![]),
+                ModelDesc::StdTab { cap } => { khash.sort(); khash.dedup(); (6, vec![cap], vec![kvs(&khash)]) }
+                ModelDesc::SmallU8 => (7, vec![], vec![]),
+                ModelDesc::Str => (8, vec![], vec![]),
                 ModelDesc::Easy { cap, auto, num, den } => (4, vec![cap, auto as u64, num, den], vec![]),
                 ModelDesc::Gold { cap0, cache, gc, reuse, lf, collide } => {
-                    let mut ks: Vec<u64> = ops[..n].iter().map(|o| o.1).collect(); ks.sort(); ks.dedup();
-                    let hs: Vec<(u64, u64)> = ks.iter().map(|&k| (k, default_hash(&ckey(collide, k)))).collect();
+                    // DefaultHasher on the real key of every key number the history touches (Gold::key_hash)
+                    let _ = collide;
+                    khash.sort(); khash.dedup();
+                    let hs: Vec<(u64, u64)> = khash.clone();
                     let ml: Vec<(u64, u64)> = GOLD_PRIMES.iter().map(|&p| (p, (p as f32 * lf) as usize as u64)).collect();
                     let (has, it, b, d) = match &fin { Some((it, sc)) => (1, it.clone(), sc[0], sc[1]), None => (0, vec![], 0, 0) };
                     (3, vec![cap0, cache as u64, gc as u64, reuse as u64, has, b, d], vec![kvs(&it), kvs(&hs), kvs(&ml)])
                 }
             };
-            let ops_coq: Vec<String> = ops[..n].iter().enumerate().filter(|(i, _)| offered[*i]).map(|(_, (c, k, v))| format!("({}, {}, {})", c, k, v)).collect();
-            let obs_coq: Vec<String> = obs[..n].iter().enumerate().filter(|(i, _)| offered[*i]).map(|(_, o)| o.clone()).collect();
+            // the new kinds run on the canonical numbers (u8 keys wrap at 256, String values are numbered ...)
+            let ops_src: &[(u64, u64, u64)] = &cops[..n];
+            let (mut ops_coq, mut obs_coq): (Vec<String>, Vec<String>) = (vec![], vec![]);
+            for i in 0..n {
+                if !offered[i] { continue; }
+                match expanded.get(&i) {
+                    // a bulk insertion is the loop of its put() calls
+                    Some(items) => {
+                        if idx_ext { ops_coq.push(format!("(16, {}, 0)", items.len())); obs_coq.push("OUnit".into()); }
+                        for (a, b) in items { ops_coq.push(format!("({}, {}, {})", if idx_ext { 17 } else { 15 }, a, b)); obs_coq.push("OUnit".into()); }
+                    }
+                    None => { let (c, k, v) = ops_src[i]; ops_coq.push(format!("({}, {}, {})", c, k, v)); obs_coq.push(obs[i].clone()); }
+                }
+            }
             if !ops_coq.is_empty() {
                 let term = format!("({}, {}, [{}], [{}], [{}])", kind, coq_n_list(params.iter().map(|&x| x as u128)),
                                    tables.join("; "), ops_coq.join("; "), obs_coq.join("; "));
@@ -712,7 +776,7 @@ pub fn run(args: &Args) {
     let mut cx = Ctx {
         sum: Summary::new("C06", "operation histories (insert/remove/get/get_mut/contains_key/len/iter/clear, 3..100 ops plus a full read-back; the wide ones also housekeeping, Clone/PartialEq, bulk insertion, alternative lookups and iteration, get_or_insert, retain) over key universes of 3, 8, 40, 130 keys, marker-adjacent keys and one-home-slot keys, on every map type, constructor and preset; ZiporaHashMap under ten caller-supplied hashers (mixing, identity, constant 0, constant u64::MAX, mod 4, two keys on the markers, k<<60, MAX-(k mod 3), 16*(k mod 3), mod 2) and fourteen hash functions of hash_functions.rs, the other maps with collisions forced through the key's Hash impl; seven rarely used key/value type pairs; enumerated: every history of <= 5 (quick: 4/5) insert/remove/get steps over 3 colliding keys; described histories (tour / threshold sweep / fill past 2^16); each answer compared with a BTreeMap, iteration as a sorted list; non-trivial = history of >= 3 operations"),
         shards: CoqShards::new(HEADER, 150),
-        budget: if args.thorough { 9000 } else { 1200 },
+        budget: if args.thorough { 9000 } else { 1500 },
         strict: args.thorough,
     };
     let mut rng = Rng::new(args.seed);
@@ -766,13 +830,24 @@ pub fn run(args: &Args) {
             let mut ops: Vec<(u64, u64, u64)> = (0..fill).map(|i| (0, (base + i) % 256, 100 + i)).collect();
             for probe in [0u64, 255, 7, base, (base + fill) % 256, (base + 20) % 256] { ops.push((2, probe, 0)); }
             ops.push((5, 0, 0));
-            history(&mut cx, "small_u8", 0, 0, &ops, false, None);
+            history(&mut cx, "small_u8", 0, 0, &ops, true, None);
             if fill > 0 {
                 let mut ops2 = ops.clone();
                 ops2.push((1, base % 256, 0));
                 for probe in [0u64, 255, base, (base + 1) % 256] { ops2.push((2, probe, 0)); }
-                history(&mut cx, "small_u8", 0, 0, &ops2, false, None);
+                history(&mut cx, "small_u8", 0, 0, &ops2, base != 200, None);
             }
+        }
+    }
+    // HashStrMap: the counters behind statistics() (op 8: entries / total_strings / unique_strings) after re-insertion of a
+    // present key, removal, re-insertion of a removed key, clear / clear_all, on every constructor
+    for n in [0u64, 1, 5, 20] {
+        for variant in 0..3u64 {
+            let mut ops: Vec<(u64, u64, u64)> = (0..n).map(|i| (0, i * 5 % 13, 10 + i)).collect();
+            for w in 0..3 { ops.push((8, 0, w)); }
+            ops.extend([(1, 5, 0), (1, 6, 0), (0, 5, 77), (3, 10, 78), (0, 10, 79), (8, 0, 0), (8, 0, 1), (8, 0, 2), (5, 0, 0), (6, 0, 0)]);
+            ops.extend([(7, variant, 0), (8, 0, 1), (8, 0, 2), (0, 3, 1), (0, 3, 2), (8, 0, 1), (8, 0, 2), (8, 0, 0)]);
+            history(&mut cx, "str", variant, 0, &ops, true, None);
         }
     }
     cx.sum.dist_max("enumerated_histories", count);
@@ -836,8 +911,8 @@ pub fn run(args: &Args) {
             history(&mut cx, "zip", variant, mode, &ops, room && (variant + i) % 3 == 0, None);
         }
         // the library's own hash functions as the caller-supplied hasher
-        history(&mut cx, "zip", [0u64, 1, 9, 10][(i % 4) as usize], N_HASHERS + i % N_LIB_HASHERS, &ops, false, None);
-        for variant in [0u64, 1, 3, 9] { history(&mut cx, "zipstr", variant, rng.below(N_HASHERS), &ops, false, None); }
+        history(&mut cx, "zip", [0u64, 1, 9, 10][(i % 4) as usize], N_HASHERS + i % N_LIB_HASHERS, &ops, room && i % 2 == 1, None);
+        for variant in [0u64, 1, 3, 9] { history(&mut cx, "zipstr", variant, rng.below(N_HASHERS), &ops, room && (variant + i) % 4 == 1, None); }
         let n = *rng.pick(&[0u64, 1, 16, 17, 24, 31, 33, 64, 100]);
         history(&mut cx, "zipcap", n, 0, &ops, room, None);
         history(&mut cx, "zipctor", i % 4, 0, &ops, room && i % 4 == 1, None);
@@ -849,16 +924,16 @@ pub fn run(args: &Args) {
             history(&mut cx, "idx", variant, rng.below(4), &ops, room && (variant + i) % 3 == 0 && ops.len() <= 120, None);
         }
         history(&mut cx, "small", i % 2, rng.below(4), &ops, room, None);
-        if ops.iter().all(|o| o.1 < 256) { history(&mut cx, "small_u8", 0, 0, &ops, false, None); }
+        if ops.iter().all(|o| o.1 < 256) { history(&mut cx, "small_u8", 0, 0, &ops, room, None); }
         for variant in (0..EASY_CLASSIC).chain([EASY_CLASSIC + i % (EASY_VARIANTS - EASY_CLASSIC)]) {
             history(&mut cx, "easy", variant, rng.below(4), &ops, room && (variant + i) % 5 == 2 && ops.len() <= 120, None);
         }
-        history(&mut cx, "str", i % 3, 0, &ops, false, None);
+        history(&mut cx, "str", i % 3, 0, &ops, room && i % 2 == 0, None);
         // rarely used key / value types: one type per round on every map family
         let ty = i % TYPES;
         for fam in ["zip_t", "gold_t", "idx_t", "small_t", "easy_t"] {
             if ty == 6 && ops.len() > 150 { continue; }
-            history(&mut cx, fam, ty, rng.below(N_HASHERS), &ops, false, None);
+            history(&mut cx, fam, ty, rng.below(N_HASHERS), &ops, room && ops.len() <= 120 && (i + fam.len() as u64) % 2 == 0, None);
         }
     }
     // large fills on every cell (one Coq evaluation of the smallest)
